@@ -2,7 +2,9 @@ package checks
 
 import (
 	"fmt"
+	"io"
 	"strings"
+	"testing/iotest"
 	"time"
 
 	"github.com/tyler-sommer/stick"
@@ -153,8 +155,60 @@ func c03Env() *stick.Env {
 	return env
 }
 
+// c03ReaderLoader delivers every template through a reader with an unusual but legal io.Reader behaviour.
+type c03ReaderLoader struct{ behaviour int }
+
+type c03ReaderTpl struct {
+	src       string
+	behaviour int
+}
+
+func (t *c03ReaderTpl) Name() string { return "t" }
+func (t *c03ReaderTpl) Contents() io.Reader {
+	r := io.Reader(strings.NewReader(t.src))
+	switch t.behaviour {
+	case 1:
+		return iotest.OneByteReader(r)
+	case 2:
+		return iotest.DataErrReader(r) // the last data arrives together with io.EOF
+	case 3:
+		return iotest.HalfReader(r)
+	case 4:
+		return iotest.DataErrReader(iotest.OneByteReader(r))
+	case 5:
+		return &c03ZeroReader{r: r}
+	}
+	return r
+}
+
+// c03ZeroReader returns (0, nil) on every other call, which io.Reader permits.
+type c03ZeroReader struct {
+	r io.Reader
+	n int
+}
+
+func (z *c03ZeroReader) Read(p []byte) (int, error) {
+	z.n++
+	if z.n%2 == 1 {
+		return 0, nil
+	}
+	if len(p) > 3 {
+		p = p[:3]
+	}
+	return z.r.Read(p)
+}
+
+func (l *c03ReaderLoader) Load(name string) (stick.Template, error) {
+	return &c03ReaderTpl{name, l.behaviour}, nil
+}
+
+const c03ReaderBehaviours = 5
+
 func c03Run(c core.Case) core.Result {
 	env := c03Env()
+	if len(c.N) > 0 && c.N[0] > 0 {
+		env.Loader = &c03ReaderLoader{c.N[0]}
+	}
 	out, err, pan := tryExec(env, c.Src, map[string]stick.Value{"v": "V", "x": "X"})
 	nt := strings.Contains(c.Src, "{%") || strings.Contains(c.Src, "{#") || strings.Contains(c.Src, "{{")
 	if pan != "" {
@@ -224,6 +278,34 @@ func c03Levels(tier string) []core.Level {
 					for _, c := range core8 {
 						c03Emit(emit, c03Concat(a, b, c), "seq")
 					}
+				}
+			}
+		}},
+		{Name: "reader behaviours: every sequence of <= 3 chunks and every leaf pair, delivered by a reader that returns one byte at a time / its last data together with io.EOF / half of what is asked / both / (0, nil) on every other call", Gen: func(emit func(core.Case)) {
+			with := func(c core.Case) {
+				for b := 1; b <= c03ReaderBehaviours; b++ {
+					c2 := c
+					c2.N = []int{b}
+					emit(c2)
+				}
+			}
+			var rec func(pre c03Prog, n int)
+			rec = func(pre c03Prog, n int) {
+				if len(pre.pieces) > 0 {
+					c03Emit(with, pre, "text")
+				}
+				if n == 0 {
+					return
+				}
+				for _, c := range c03Chunks {
+					rec(c03Concat(pre, c03Text(c)), n-1)
+				}
+			}
+			rec(c03Prog{}, 3)
+			for _, a := range leaves {
+				c03Emit(with, a, "seq")
+				for _, b := range leaves {
+					c03Emit(with, c03Concat(a, b), "seq")
 				}
 			}
 		}},
